@@ -183,13 +183,61 @@ theorem neg_eq_of_sameUpToOrder [Ring α] [DecidableEq α] (M M' : Sptenmat α) 
   unfold neg
   rw [copy_eq_of_sameUpToOrder M M' hl hs]
 
+/-! ### `isequal` -/
+
+section iseq
+variable [AddCommMonoid α] [DecidableEq α]
+
+/-- `isequal` gives the same answer (or raises alike) whatever the stored order of the
+receiver and of the argument. -/
+theorem isequal_of_sameUpToOrder (M M' N N' : Sptenmat α) (hlM : M.subs.length = M.vals.length)
+    (hlN : N.subs.length = N.vals.length) (hM : SameUpToOrder M' M) (hN : SameUpToOrder N' N) :
+    M'.isequal N' = M.isequal N := by
+  unfold isequal
+  rw [copy_eq_of_sameUpToOrder M M' hlM hM, copy_eq_of_sameUpToOrder N N' hlN hN, hM.1, hM.2.1, hM.2.2.1,
+    hN.1, hN.2.1, hN.2.2.1]
+
+/-- For well-formed operands with proper mode splits `isequal` answers, and it says `True`
+exactly when the two objects have the same tensor shape, the same mode split and denote the
+same matrix. -/
+theorem isequal_spec (M N : Sptenmat α) (hM : M.mat.WF) (hN : N.mat.WF)
+    (hpM : isPermOf (M.rdims ++ M.cdims) M.tshape.length = true)
+    (hpN : isPermOf (N.rdims ++ N.cdims) N.tshape.length = true) :
+    ∃ b, M.isequal N = .ok b ∧
+      (b = true ↔ M.tshape = N.tshape ∧ M.rdims = N.rdims ∧ M.cdims = N.cdims ∧
+        ∀ i, M.mat.get i = N.mat.get i) := by
+  obtain ⟨A, hA⟩ := copy_ok M hM hpM
+  obtain ⟨B, hB⟩ := copy_ok N hN hpN
+  obtain ⟨wA, a1, a2, a3, gA⟩ := copy_spec M A hA
+  obtain ⟨wB, b1, b2, b3, gB⟩ := copy_spec N B hB
+  refine ⟨_, by unfold isequal; rw [hA, hB], ?_⟩
+  simp only [Bool.and_eq_true, beq_iff_eq]
+  constructor
+  · rintro ⟨⟨⟨⟨hv, hs⟩, ht⟩, hc⟩, hr⟩
+    refine ⟨ht, hr, hc, fun i => ?_⟩
+    rw [← gA i, ← gB i]
+    have hsh : A.mshape = B.mshape := by unfold Sptenmat.mshape; rw [a1, a2, a3, b1, b2, b3, ht, hr, hc]
+    show Sparse.get ⟨A.mshape, A.subs, A.vals⟩ i = Sparse.get ⟨B.mshape, B.subs, B.vals⟩ i
+    rw [hv, hs, hsh]
+  · rintro ⟨ht, hr, hc, hg⟩
+    -- same matrix, both well-formed: the same triples up to order, hence the same copy
+    have hsh : N.mshape = M.mshape := by unfold Sptenmat.mshape; rw [ht, hr, hc]
+    have hre : Reorder N.mat M.mat :=
+      reorder_of_get_eq M.mat N.mat hM hN hsh (fun i _ => (hg i).symm)
+    have hsame : SameUpToOrder N M := ⟨ht.symm, hr.symm, hc.symm, hre⟩
+    have hcopy := copy_eq_of_sameUpToOrder M N hM.len hsame
+    rw [hA, hB] at hcopy
+    cases hcopy
+    exact ⟨⟨⟨⟨rfl, rfl⟩, ht⟩, hc⟩, hr⟩
+
+end iseq
+
 /-! ### `__setitem__` that appends a pair leaves literally the same object -/
 
-/-- When the assignment appends at least one pair (so the triples are sorted) and the key names
-no cell twice, the stored result does not depend on the stored order of the receiver. -/
+/-- When the assignment appends at least one pair (so the triples are re-sorted), the stored
+result does not depend on the stored order of the receiver. -/
 theorem setApply_eq_of_appended [Zero α] [BEq α] (M M' : Sptenmat α) (cvs : List (List Nat × α)) (hM : M.mat.WF)
-    (hnd : (cvs.map (·.1)).Nodup) (hs : SameUpToOrder M' M)
-    (hnew : (cvs.filter fun cv => !M.subs.any (hits cv.1)) ≠ []) :
+    (hs : SameUpToOrder M' M) (hnew : freshOf M.subs cvs ≠ []) :
     M'.setApply cvs = M.setApply cvs := by
   have hl : M.subs.length = M.vals.length := hM.len
   obtain ⟨t1, t2, t3, r⟩ := hs
@@ -197,38 +245,23 @@ theorem setApply_eq_of_appended [Zero α] [BEq α] (M M' : Sptenmat α) (cvs : L
   have hperm := (loopResult_perm M M' cvs hl r).2.2
   rw [loopResult_entries M' cvs hl', loopResult_entries M cvs hl] at hperm
   have hps : M'.subs.Perm M.subs := perm_subs_of_entries (S' := M'.mat) (S := M.mat) hl' hl r.2.2
-  have hany : ∀ c : List Nat, M'.subs.any (hits c) = M.subs.any (hits c) := by
-    intro c
-    rw [Bool.eq_iff_iff, List.any_eq_true, List.any_eq_true]
-    constructor
-    · rintro ⟨x, hx, h⟩; exact ⟨x, hps.mem_iff.1 hx, h⟩
-    · rintro ⟨x, hx, h⟩; exact ⟨x, hps.mem_iff.2 hx, h⟩
-  have hf : (cvs.filter fun cv => !M'.subs.any (hits cv.1)) = cvs.filter fun cv => !M.subs.any (hits cv.1) := by
-    apply List.filter_congr
-    intro cv _
-    rw [hany]
+  have hf : freshOf M'.subs cvs = freshOf M.subs cvs := freshOf_perm hps cvs
   -- keys of the loop result are pairwise distinct
-  have hkeys : (((M.mat.entries.map fun e => (e.1, updVal cvs e.1 e.2)) ++
-      cvs.filter fun cv => !M.subs.any (hits cv.1)).map (·.1)).Nodup := by
-    rw [List.map_append, List.map_map]
-    have hk : M.mat.entries.map ((fun e : List Nat × α => e.1) ∘ fun e => (e.1, updVal cvs e.1 e.2)) = M.subs :=
-      M.mat.entries_keys hl
-    rw [hk, List.nodup_append]
-    refine ⟨hM.nodup, List.Nodup.sublist (List.Sublist.map _ List.filter_sublist) hnd, ?_⟩
-    intro a ha b hb hab
-    subst hab
-    obtain ⟨cv, hcv, rfl⟩ := List.mem_map.1 hb
-    have := (List.mem_filter.1 hcv).2
-    simp only [Bool.not_eq_true', List.any_eq_false] at this
-    exact this cv.1 ha (hits_self _)
+  have hkeys : (((M.mat.entries.map fun e => (e.1, updVal cvs e.1 e.2)) ++ newOf M.subs cvs).map (·.1)).Nodup := by
+    rw [← loopResult_entries M cvs hl, (loopResult M cvs).entries_keys (loopResult_len M cvs hl)]
+    exact loopResult_keys_nodup M cvs hM
+  have hne : (newOf M.subs cvs).isEmpty = false := by
+    have : newOf M.subs cvs ≠ [] := fun h => hnew ((newOf_eq_nil_iff _ _).1 h)
+    simpa using this
+  have hsort := sortEntries_of_perm hperm hkeys
   unfold setApply
-  simp only [setLoop, setLoop_fold M'.subs cvs M'.vals [] hl', setLoop_fold M.subs cvs M.vals [] hl, List.nil_append, hf]
-  have hne : (cvs.filter fun cv => !M.subs.any (hits cv.1)).isEmpty = false := by
-    simpa using hnew
-  simp only [hne, Bool.false_eq_true, if_false]
+  simp only [setLoop, setLoop_fold M'.subs cvs M'.vals [] hl', setLoop_fold M.subs cvs M.vals [] hl, hf]
+  have hne' : (List.foldl addNew [] (freshOf M.subs cvs)).isEmpty = false := hne
+  simp only [hne', Bool.false_eq_true, if_false]
   rw [zip_zipWith_left, zip_zipWith_left]
-  have hsort := sortEntries_of_perm (by simpa [hf, mat, Sparse.entries] using hperm) hkeys
-  simp only [mat, Sparse.entries] at hsort
+  have hf' : newOf M'.subs cvs = newOf M.subs cvs := by unfold newOf; rw [hf]
+  rw [hf'] at hsort
+  simp only [mat, Sparse.entries, newOf] at hsort
   rw [hsort, t1, t2, t3]
 
 end Sptenmat
